@@ -59,7 +59,7 @@ func genSel(r *hx.Rng, thorough bool) {
 	}
 	n := 150
 	if thorough {
-		n = 4000
+		n = 1500
 	}
 	flagPool := []string{"-", "1", "1", "1", "2", "2,1", "1,1", "3", "0", "1,2"}
 	for i := 0; i < n; i++ {
@@ -123,7 +123,7 @@ func genRt(r *hx.Rng, thorough bool) {
 		emitRt("-", def, kindDesc(r, 'r', 1<<20+1))
 		nr := 30
 		if thorough {
-			nr = 400
+			nr = 200
 		}
 		for i := 0; i < nr; i++ {
 			n := r.Intn(1 << uint(1+r.Intn(18)))
@@ -158,7 +158,7 @@ func genRt(r *hx.Rng, thorough bool) {
 	}
 	nl := 60
 	if thorough {
-		nl = 1500
+		nl = 600
 	}
 	for i := 0; i < nl; i++ {
 		k := 1 + r.Intn(4)
@@ -294,6 +294,9 @@ func genDec(r *hx.Rng, thorough bool) {
 				ks = []int64{2, 3, 32, 100}
 			}
 			for _, k := range ks {
+				if !thorough && max >= 1<<20 && k > 8 {
+					k = 8
+				}
 				L := max*k + 1
 				if (form == 2 || form == 5) && L > 4<<20 {
 					L = 4<<20 + 1 // snappy compresses a run only ~20x; keep the lines modest
@@ -347,7 +350,7 @@ func genDec(r *hx.Rng, thorough bool) {
 	// (c) mutated compressed inputs
 	nm := 140
 	if thorough {
-		nm = 4000
+		nm = 1500
 	}
 	kinds := []byte{'r', 'p', 't', 'x', 'm'}
 	maxPool := []int64{defMax, defMax, 65536, 1000, 100, 1}
@@ -369,7 +372,7 @@ func genDec(r *hx.Rng, thorough bool) {
 	// (d) arbitrary bytes under every codec number
 	nr := 60
 	if thorough {
-		nr = 1500
+		nr = 500
 	}
 	for _, codec := range []int{0, 1, 2, 3, 4, 5, -1, 77} {
 		emitDec(codec, defMax, nil, nil)
@@ -391,7 +394,7 @@ func genDec(r *hx.Rng, thorough bool) {
 	}
 	nx := 200
 	if thorough {
-		nx = 5000
+		nx = 2000
 	}
 	for i := 0; i < nx; i++ {
 		var chunks [][]byte
@@ -440,7 +443,7 @@ func genDec(r *hx.Rng, thorough bool) {
 	}
 	nd := 60
 	if thorough {
-		nd = 1500
+		nd = 600
 	}
 	for i := 0; i < nd; i++ {
 		var chunks [][]byte
